@@ -1465,3 +1465,98 @@ def colors_hls_default_b(H):
 @op("clustermap", rand=True, slow=True)
 def clustermap_default_b(H):
     return pp.similarity_clustermap(H["df_cluster"].iloc[::-1].reset_index(drop=True))
+
+
+# =============================================================================================
+# numerical edge cases: results that are nan / inf through floating-point operations (0/0, log 0,
+# overflow).  They are the victims of anything that leaves NumPy's error state, warning filters or
+# similar process-wide settings changed; plus calls that raise in the middle of a loop.
+# =============================================================================================
+@heap
+def df_unique():
+    return pd.DataFrame({"a": ["u1", "u2", "u3", "u4"], "b": ["p", "q", "r", "s"], "group": ["g1", "g1", "g2", "g2"]}, index=[3, 1, 4, 2])
+
+
+@heap
+def seqs_with_none():
+    return ["CASSF", "CASSLF", None, "CAS"]
+
+
+@heap
+def ones_list():
+    return [1, 1, 1]
+
+
+def cb_nan_metric(a, b, **kw):
+    return np.float64("nan") if len(a) != len(b) else np.float64(1.0)
+
+
+@op("edge")
+def edge_pc_single(H):
+    return [prs.pc(["CASSF"]), prs.pc_n([1]), prs.pc_n(np.array([1]))]
+
+
+@op("edge")
+def edge_pcDelta_single(H):
+    return prs.pcDelta(["CASSF"], bins=H["bins_arr"])
+
+
+@op("edge")
+def edge_renyi_unique(H):
+    return [prs.renyi2_entropy(H["df_unique"], "a"), prs.renyi2_entropy(H["df_unique"], ["a", "b"], base=None),
+            prs.stdrenyi2_entropy(H["df_unique"], "a")]
+
+
+@op("edge")
+def edge_powerlaw_mle_ones(H):
+    return [prs.powerlaw_mle_alpha(H["ones_list"], method="simple"), prs.powerlaw_mle_alpha(np.array([2, 3]), cmin=5, method="simple")]
+
+
+@op("edge")
+def edge_varpc_small(H):
+    return [prs.varpc_n(np.array([1, 1, 1])), prs.stdpc_n(np.array([2, 1])), prs.stdpc(["a", "b", "c"])]
+
+
+@op("edge", rand=True)
+def edge_powerlaw_overflow(H):
+    return prs.powerlaw_sample(size=400, xmin=50, alpha=1.02)
+
+
+@op("edge")
+def edge_pc_conditional_unique(H):
+    return [prs.pc_conditional(H["df_unique"], "group", "a"), prs.pc_grouped_cross(H["df_unique"], "group", "a")]
+
+
+@op("edge")
+def edge_pcDelta_grouped_single(H):
+    return prs.pcDelta_grouped(H["df_unique"], "a", "b", bins=H["bins_arr"])
+
+
+@op("pdist")
+def pdist_with_none(H):
+    return prs.pdist(H["seqs_with_none"])
+
+
+@op("pdist")
+def cdist_with_none(H):
+    return prs.cdist(H["seqs_list2"], H["seqs_with_none"])
+
+
+@op("pdist", cb=cb_nan_metric)
+def pdist_nan_metric(H, cb=cb_nan_metric):
+    return prs.pdist(H["seqs_short"], metric=cb)
+
+
+@op("pdist", cb=cb_nan_metric)
+def cdist_nan_metric_float(H, cb=cb_nan_metric):
+    return prs.cdist(H["seqs_short"], H["seqs_arr"], metric=cb, dtype=float)
+
+
+@op("metric")
+def metric_lev_with_none(H):
+    return H["metric_lev"].calc_pdist_vector(H["seqs_with_none"])
+
+
+@op("kdtree")
+def kdtree_with_none(H):
+    return prs.kdtree(H["seqs_with_none"])
